@@ -186,7 +186,7 @@ def _main(args, prop, seed, t0, workdir):
     if args.scenario and s.name not in args.scenario:
       continue
     runs = (s.fuzz_runs or {}).get(args.tier, 0)
-    if s.decode is not None and runs:
+    if runs:
       nsh = 4 if args.tier == 'quick' else 12
       for sh in range(nsh):
         specs.append({'mode': 'fuzz', 'prop': prop, 'scenario': s.name, 'tier': args.tier,
